@@ -17,9 +17,10 @@ def generate(ck, consts):
     g = ck.tlc("EbnfGen", constants=consts, workers=4, count=False, timeout=900)
     if "GENERATED" not in g.out:
         raise vp.Infra("EbnfGen failed:\n" + g.out[-2000:])
-    # family F6 (declaration kinds, specifications without a start rule) belongs to C11
+    # family F6 (declaration kinds, specifications without a start rule) belongs to C11; family F11 (very long and very
+    # deep constructs) is for the parser-level checks C04/C18: bounded language fixpoints over 16 nested repetitions explode
     path = os.path.join(ck.work, "tla", "gen_specs.ndjson")
-    vp.write_ndjson(path, [r for r in vp.read_ndjson(path) if r["fam"] != "F6"])
+    vp.write_ndjson(path, [r for r in vp.read_ndjson(path) if r["fam"] not in ("F6", "F11")])
 
 
 def export(ck):
